@@ -209,7 +209,10 @@ macro_rules! fixed_mul_div {
                 let q = if b == 0 {
                     0x7FFFFFFF
                 } else {
-                    ((((a as u64) << 16) + ((b as u64) >> 1)) / (b as u64)) as u32
+                    // `a` and `b` are magnitudes here; i32::MIN stays negative after
+                    // wrapping_neg, so reinterpret as unsigned before widening.
+                    let (a, b) = (a as u32 as u64, b as u32 as u64);
+                    (((a << 16) + (b >> 1)) / b) as u32
                 };
                 Self(if sign < 0 {
                     (q as i32).wrapping_neg()
